@@ -80,6 +80,9 @@ P = {
  "C09": ("model_checking", "Subscription.tla (broadcast ring, history batches, hand-over, window) model-checked by TLC; traces of real subscriptions on the real ClusterActor validated by TLC against TraceSub.tla",
          "TLC explores Subscription.tla for partition and stream matchers with InOrderNoGap, OnlyConfirmed, WindowRespected, CompleteAtRest (two named deviations must fail); real Subscribe runs on the real ClusterActor for Partition / Partitions / Stream / Streams matchers with unconfirmed events confirmed through the real ConfirmTransaction handler while the subscriber receives and acknowledges, including history reads parked (hook) between batches while the watermark advances; the recorded trace is validated line by line by TLC.",
          "Single process; confirmations arrive through ConfirmTransaction; a record must lie below the watermark implied by the confirmations issued before it was received.", "5/C09", "h-cluster"),
+ "C21": ("model_checking", "Commands.tla (documented grammar as a generator, with the request each line denotes and near-misses that denote rejection) enumerated by TLC; every row parsed by the real sierradb-server command parsers; every sierradb-client emitter captured and parsed the same way",
+         "TLC enumerates ~14,400 command lines of EAPPEND, EMAPPEND, ESUB, EPSUB, ESCAN, EPSCAN, EGET, ESVER, EPSEQ, EACK (positional arguments, every subset and order of optional clauses, keyword case, boundary numbers, multi-stream / multi-partition forms, near-misses) each with its denotation, and checks the grammar's own invariant (a keyword never denotes a positional value); each row is framed as RESP3 and parsed with <Command>::parser().skip(eof()), the result compared field by field with the denotation; all CmdExt builders and SubscriptionManager::subscribe_* functions are invoked, their emitted arguments captured (loopback endpoint for the manager) and parsed the same way.",
+         "Blob-string framing; the EPSUB partition-key form is compared up to the partition id, which is resolved at handling time (C22 exercises it).", "5/C21", "h-resp"),
 }
 
 NOT_YET = "not yet built in this session (planned: see DESIGN.md section 5); no claim is made"
@@ -93,6 +96,8 @@ ENGINES = [
   "kind_free_text": "Rust harness linked against /repo/crates/sierradb: EventStore/Durability behaviour replay on a real Database, read oracle, crash-image enumeration, schedule control through cfg-gated hooks"},
  {"name": "h-cluster", "path": "harness/h-cluster", "serves_properties": ["C07", "C08", "C09", "C10", "C11", "C12", "C26"],
   "kind_free_text": "Rust harness linked against /repo/crates/sierradb-cluster: schedule replay on the circuit breaker, confirmation/watermark replay, replicator replay, read gating, subscriptions, virtual cluster"},
+ {"name": "h-resp", "path": "harness/h-resp", "serves_properties": ["C21"],
+  "kind_free_text": "Rust harness linked against /repo/crates/sierradb-server and sierradb-client: Commands.tla rows through the real combine parsers, client emitters captured on a loopback RESP endpoint"},
  {"name": "tlc", "path": "spec", "serves_properties": sorted(P.keys()),
   "kind_free_text": "TLA+ specifications checked with TLC 1.8 (exhaustive + simulation), behaviours/tables exported as JSON"},
 ]
